@@ -380,6 +380,25 @@ def some_points(f):
             elif ch == ',' and depth == 1:
                 rty = rty[1:i]
                 break
+    # locals whose value is handed to the return place (directly, by whole moves, or as a component of the returned tuple):
+    # an Option of the same type that only lives inside the function (the result of an inlined helper, matched on and
+    # unpacked again) is not a reply point
+    flows = {0}
+    changed = True
+    while changed:
+        changed = False
+        for b in f.blocks:
+            if b['cleanup']:
+                continue
+            for s in b['stmts']:
+                if s['lhs']['p'] or s['lhs']['l'] not in flows:
+                    continue
+                rv = s['rv']
+                ops = [rv['a']] if rv['k'] == 'use' else (rv['ops'] if rv['k'] == 'agg' and rv.get('agg') == 'tuple' else [])
+                for o in ops:
+                    if o['k'] in ('copy', 'move') and not o['place']['p'] and o['place']['l'] not in flows:
+                        flows.add(o['place']['l'])
+                        changed = True
     out = []
     for bi, b in enumerate(f.blocks):
         if b['cleanup']:
@@ -387,7 +406,7 @@ def some_points(f):
         for s in b['stmts']:
             rv = s['rv']
             if rv['k'] == 'agg' and rv.get('adt') == 'std::option::Option' and rv.get('variant') == 'Some' and not s['lhs']['p']:
-                if f.locals[s['lhs']['l']]['ty'] == rty:
+                if f.locals[s['lhs']['l']]['ty'] == rty and s['lhs']['l'] in flows:
                     out.append(bi)
     return sorted(set(out))
 
@@ -1094,3 +1113,45 @@ def is_modsum(e, term_preds, const, w=32):
             return False
         left.remove(hit[0])
     return True
+
+
+def insert_complete(F):
+    """A flow whose first data segment is validated does get its entry: the only reason for add_tcb(key) to return
+    without the insert is that the key is already present (no capacity limit, sampling, or other condition).
+    -> (ok, instance key, detail)"""
+    f = F.fn('proto::tcb::add_tcb')
+    INS = r'HashMap::<[^>]*>::insert$|Entry::<[^>]*>::(%s)$' % '|'.join(('or_insert', 'or_insert_with', 'or_insert_with_key', 'or_default'))
+
+    def on_call(bi, t, flags):
+        if re.search(INS, t['callee']):
+            return flags | {'ins'}
+        return flags
+    _, exits = fact_sim(f, lambda k: True, on_call=on_call, stable_fn=lambda k: is_call(k, r'contains_key$'))
+    n = bad = 0
+    why = ''
+    for (bi, (flags, facts)) in exits:
+        if f.blocks[bi]['term']['k'] != 'return':
+            continue
+        n += 1
+        if 'ins' in flags:
+            continue
+        present = [1 for (k, r_, c_) in facts if is_call(k, r'HashMap::<[^>]*>::contains_key$') and peel(k[2][1]) == ('param', 1)
+                   and ((r_ == '!=' and c_ == 0) or (r_ == '==' and c_ == 1))]
+        if not present:
+            bad += 1
+            why = '; a path returns without inserting although contains_key(key) was not found true (facts: %s)' % sorted(short(k)[:40] + r_ + str(c_) for (k, r_, c_) in facts)[:4]
+    return n > 0 and bad == 0, 'add_tcb:inserts-unless-present', '%d return path states, %d skip the insert for another reason than the key being present%s' % (n, bad, why)
+
+
+def dispatch_sound(ctx, prop, what):
+    """Rule <prop>-RD: the behaviour stated for this protocol presupposes that its requests reach its responder - and that other
+    payloads do not: that is decided by the signature table and the matcher built from it.  The structural rules of C10
+    (registration/dispatch agreement, the published signatures and their flags, matcher-state handling, the compiler ingredients)
+    are evaluated on the same facts and each of their instances is an obligation here."""
+    from vlib.runner import borrow
+    rep = ctx.rep
+    insts = borrow(ctx, 'C10', lambda r_, k_: r_ in ('C10-R1', 'C10-R2', 'C10-R4', 'C10-R5'))
+    rd = rep.rule(prop + '-RD', 'dispatch: %s only through the signature matcher; the structural rules on the signature table, the matcher state and the matcher compiler (C10-R1, R2, R4, R5) hold on this tree' % what, floor=40)
+    for rid_, inst in insts:
+        rep.check(rd, inst['ok'], '%s:%s' % (rid_, inst['key']), inst['detail'], inst['loc'])
+    return rd
